@@ -11,6 +11,9 @@ class _NP(object):
     @staticmethod
     def int64(x=0):
         if isinstance(x, SymStr):
+            x = core.try_concretize_str(x)
+            if isinstance(x, str):
+                return _np.int64(x)
             return symnum.np_int64(x)
         if isinstance(x, symnum.SymNum):
             if x.kind == "int":
@@ -23,6 +26,9 @@ class _NP(object):
     @staticmethod
     def float64(x=0.0):
         if isinstance(x, SymStr):
+            x = core.try_concretize_str(x)
+            if isinstance(x, str):
+                return _np.float64(x)
             return symnum.np_float64(x)
         if isinstance(x, symnum.SymNum):
             return x if x.kind == "float" else symnum.SymNum("float", x.text)
@@ -42,8 +48,106 @@ class _NP(object):
             return False
         return _np.isnan(x)
 
+    @staticmethod
+    def genfromtxt(fname, skip_header=0, max_rows=None, names=None, unpack=False, loose=True, **kw):
+        """contract stub of numpy.genfromtxt for the way lasio calls it (whitespace-delimited
+        floats, '#' comments, loose=False), used when the file is a symbolic stub; validated
+        against the real function on concrete files by symnp.validate_genfromtxt()"""
+        from .stubs import SymFile
+
+        if not isinstance(fname, SymFile):
+            if isinstance(fname, (str, bytes)) or hasattr(fname, "read") or hasattr(fname, "__fspath__"):
+                return _np.genfromtxt(fname, skip_header=skip_header, max_rows=max_rows, names=names, unpack=unpack, loose=loose, **kw)
+            # a generator / list of lines (numpy accepts those): symbolic members -> stub
+            seq = list(fname)
+            if not any(isinstance(x, SymStr) for x in seq):
+                return _np.genfromtxt(seq, skip_header=skip_header, max_rows=max_rows, names=names, unpack=unpack, loose=loose, **kw)
+            fname = SymFile([x[:-1] if isinstance(x, str) and x.endswith("\n") else x for x in seq], terms=[""] * len(seq))
+        if kw or names is not None or loose:
+            raise core.EngineUnsupported("genfromtxt stub: unsupported arguments")
+        if max_rows is not None and max_rows < 1:
+            raise ValueError("'max_rows' must be at least 1.")
+        it = iter(fname)
+        for _ in range(skip_header):
+            try:
+                next(it)
+            except StopIteration:
+                break
+        rows = []
+        ncols = None
+        bad = False
+        for line in it:
+            if isinstance(line, SymStr):
+                line = core.try_concretize_str(line)
+            first = line.split("#")[0]
+            first = first.strip() if isinstance(first, str) else SymStr.lift(first).strip()
+            toks = first.split()
+            if len(toks) == 0:
+                continue
+            vals = []
+            for t in toks:
+                t = core.try_concretize_str(t)
+                if not isinstance(t, str):
+                    raise core.EngineUnsupported("genfromtxt stub: a data token is not determined by the path condition")
+                vals.append(float(t))  # ValueError for non-numeric text, as with loose=False
+            if ncols is None:
+                ncols = len(vals)
+            elif len(vals) != ncols:
+                bad = True
+            else:
+                rows.append(None)
+            if not bad:
+                if ncols is not None and len(rows) and rows[-1] is None:
+                    rows[-1] = vals
+                elif ncols is not None and not rows:
+                    rows.append(vals)
+            if max_rows is not None and len(rows) + (1 if bad else 0) >= max_rows and not bad and len(rows) == max_rows:
+                break
+        if bad:
+            raise ValueError("Some errors were detected ! (rows with a different number of columns)")
+        if not rows:
+            import warnings
+
+            warnings.warn("genfromtxt: Empty input file", stacklevel=2)
+            return _np.array([])
+        out = _np.squeeze(_np.array(rows, dtype=float))
+        return out.T if unpack else out
+
     def __getattr__(self, k):
         return getattr(_np, k)
+
+
+def validate_genfromtxt():
+    """differential validation of the genfromtxt stub on all files of <= 4 lines over 8 line shapes"""
+    import io
+    import itertools
+    import warnings
+    from .stubs import SymFile
+
+    shapes = ["1 2", "3 4", " 5  6 ", "7", "", "# c", "1 2 # t", "x y", "8 9 10"]
+    n = 0
+    bad = []
+    for L in range(0, 5):
+        for combo in itertools.product(shapes, repeat=L):
+            for skip in (0, 1):
+                for mr in (None, 1, 2):
+                    n += 1
+                    lines = list(combo)
+
+                    def run(f):
+                        with warnings.catch_warnings():
+                            warnings.simplefilter("ignore")
+                            try:
+                                a = f()
+                                return ("ok", a.shape, a.tolist())
+                            except Exception as e:
+                                return ("exc", type(e).__name__)
+
+                    r1 = run(lambda: _np.genfromtxt(io.StringIO("".join(l + "\n" for l in lines)), skip_header=skip, max_rows=mr, names=None, unpack=True, loose=False))
+                    r2 = run(lambda: _NP.genfromtxt(SymFile(lines), skip_header=skip, max_rows=mr, names=None, unpack=True, loose=False))
+                    if repr(r1) != repr(r2):
+                        bad.append((lines, skip, mr, r1, r2))
+    return n, bad
 
 
 NP = _NP()
